@@ -105,7 +105,10 @@ except ImportError:  # pragma: no cover
     from mashumaro.mixins.json import DataClassJSONMixin  # type: ignore
 
 
-UTC_OFFSET_PATTERN = r"^UTC([+-][0-2][0-9]:[0-5][0-9])?$"
+# the way datetime.timezone names an offset: UTC[+-]hh:mm[:ss[.ffffff]]
+UTC_OFFSET_PATTERN = (
+    r"^UTC([+-][0-2][0-9]:[0-5][0-9](:[0-5][0-9](\.[0-9]{6})?)?)?$"
+)
 
 
 @dataclass
